@@ -575,6 +575,8 @@ fn hints(n: usize) -> Vec<(&'static str, (usize, Option<usize>))> {
     ("filter-like", (0, Some(n))),
     ("unbounded", (0, None)),
     ("loose", (n.min(1), Some(n + 3))),
+    // what `(0..usize::MAX).filter(..)` and chained iterators report: an upper bound far above what comes
+    ("huge-upper", (0, Some(usize::MAX))),
   ]
 }
 
